@@ -144,8 +144,13 @@ func c20Mode(o *cli.Opts, run *evid.Run, bin, mode, variant string) {
 			s := scrapeMetrics(srv.MetricsAddr)
 			mu.Lock()
 			scrapes = append(scrapes, s)
+			many := len(scrapes) > 2000
 			mu.Unlock()
-			time.Sleep(40 * time.Millisecond)
+			if many {
+				time.Sleep(400 * time.Millisecond) // long (thorough) histories: keep the history checkable
+			} else {
+				time.Sleep(40 * time.Millisecond)
+			}
 		}
 	}()
 	do := func(client int, rq *request) {
@@ -244,7 +249,7 @@ func c20Mode(o *cli.Opts, run *evid.Run, bin, mode, variant string) {
 	// bursts of cheap requests that finish within microseconds of one another, each followed by a quiescent scrape:
 	// with nothing outstanding the in-flight gauge must read 0 (a gauge published out of order stays stuck until
 	// the next request overwrites it, so it has to be looked at between bursts, not only at the end)
-	for b := 0; b < o.Pick(250, 4000); b++ {
+	for b := 0; b < o.Pick(250, 1500); b++ {
 		bkey := fmt.Sprintf("%s/burst/%d", key, b)
 		if liveness.hung() && run.Violations() > 0 {
 			break
@@ -423,7 +428,7 @@ func c20Mode(o *cli.Opts, run *evid.Run, bin, mode, variant string) {
 			history = append(history, porcupine.Operation{ClientId: 1000 + si, Input: counterIn{Read: true, Key: k}, Call: s.call, Output: s.totals[k], Return: s.ret})
 		}
 	}
-	res, info := porcupine.CheckOperationsVerbose(counterModel, history, 2*time.Minute)
+	res, info := porcupine.CheckOperationsVerbose(counterModel, history, time.Duration(o.Pick(3, 15))*time.Minute)
 	switch res {
 	case porcupine.Ok:
 		run.Add("porcupine_ok", 1)
